@@ -2,25 +2,41 @@
   C06 — Binary event chunks round-trip and are read identically by every reader.
   Magic number and version come from `PyndlModel.Generated`, i.e. from the
   literals of preprocess.py and of ndl_parallel.pyx as they are NOW.
+
+  Scope of the reader statements: byte strings that are COMPLETE (as long as
+  their header count and block lengths announce — in particular everything
+  `write_events` leaves on disk) or have a wrong magic number / version.
+  TRUNCATED byte strings are OUTSIDE: the model readers return the marker
+  `ReadErr.truncated` there, which no real reader has (`read_binary_file`
+  zero-fills short reads, the kernels ignore `fread`'s return value); nothing
+  is claimed about the real readers on them (DESIGN: truncation is not part of
+  the property).
+  By construction (one definition stands for several copies in the source): the
+  kernels' reader `decodeChunkKernel` stands for the 4 reader copies of
+  ndl_parallel.pyx, `learnChunks` / `learnChunksB2B` for the 5 entry-point
+  loops; the exception CLASS (`ValueError` in Python, `IOError` from the entry
+  points) is not in the model.
 -/
 import PyndlProofs.Bytes
+import PyndlProofs.NdlSpec
 import PyndlModel.Kernel
 
 namespace Pyndl.C06
 open Pyndl List
 
-/-- writer (preprocess.py) and kernels (ndl_parallel.pyx) use the same magic number … -/
+/-- (constant check) writer (preprocess.py) and kernels (ndl_parallel.pyx) use the same magic number … -/
 theorem magic_agree : Generated.pyMagic = Generated.kernelMagic := by decide
 
-/-- … and the same current version; both fit 32 bits -/
+/-- (constant check) … and the same current version; both fit 32 bits -/
 theorem version_agree : Generated.pyVersion = Generated.kernelVersion := by decide
 
+/-- (constant check) -/
 theorem header_fits : Generated.pyMagic < 4294967296 ∧ Generated.pyVersion < 4294967296 := by decide
 
-/-- the with-frequency legacy version is not the current version (it must be rejected) -/
+/-- (constant check) the with-frequency legacy version is not the current version (it must be rejected) -/
 theorem old_version_differs : Generated.pyVersionWithFreq ≠ Generated.pyVersion := by decide
 
-/-- the kernels' initial buffer capacity is the same (1024) in all four kernels -/
+/-- (constant check) the kernels' initial buffer capacity is the same (1024) in all four kernels -/
 theorem buffer_caps_agree : Generated.kernelBufferCap = Generated.kernelBufferCapMax ∧
     Generated.kernelBufferCap = 1024 := by decide
 
@@ -44,17 +60,68 @@ theorem kernel_decode_encode (es : List (Event Nat Nat)) (hn : es.length < 42949
   rw [decodeChunkKernel_eq_py, ← magic_agree, ← version_agree]
   exact decode_encode es hn h
 
-/-- … for every byte string the two readers agree, and the kernel reader never
-    reads a block longer than the buffer it has (re)allocated, whatever the
-    counts are (in particular > 1024). -/
-theorem kernel_decode_eq_py (magic version : Nat) (bs : Bytes) :
-    (decodeChunkKernel magic version bs).map (·.1) = decodeChunkPy magic version bs :=
-  decodeChunkKernel_eq_py magic version bs
+/-- **the readers agree on every COMPLETE byte string**: whenever the Python
+    reader reads a byte string to the end of what its counts announce, the
+    kernels' reader returns the same events (for ANY header constants, any
+    counts — in particular blocks longer than 1024), and conversely.
+    Truncated byte strings are OUTSIDE this statement (file header).
+    (Was `kernel_decode_eq_py`, "for every byte string the two readers agree":
+    true of the MODEL readers only because both return the invented marker
+    `.truncated` on short input, where the real readers do different things.) -/
+theorem kernel_reads_what_py_reads (magic version : Nat) (bs : Bytes) (es : List (Event Nat Nat)) :
+    decodeChunkPy magic version bs = .ok es ↔ ∃ hist, decodeChunkKernel magic version bs = .ok (es, hist) :=
+  ⟨decodeChunkKernel_of_py_ok magic version bs es,
+   fun ⟨hist, h⟩ => decodeChunkPy_of_kernel_ok magic version bs es hist h⟩
 
+/-- **… and on every header**: the two readers reject a wrong magic number and a
+    wrong version with the same verdict -/
+theorem kernel_rejects_what_py_rejects (magic version : Nat) (bs : Bytes) :
+    (decodeChunkKernel magic version bs = .error .badMagic ↔ decodeChunkPy magic version bs = .error .badMagic) ∧
+    (decodeChunkKernel magic version bs = .error .badVersion ↔
+      decodeChunkPy magic version bs = .error .badVersion) :=
+  ⟨decodeChunk_error_iff magic version bs .badMagic, decodeChunk_error_iff magic version bs .badVersion⟩
+
+/-- what `write_events` writes is never in the "truncated" region: both readers
+    succeed on it (so the statements above cover every chunk file of a run) -/
+theorem written_chunks_are_complete (es : List (Event Nat Nat)) (hn : es.length < 4294967296) (h : Wf32 es) :
+    decodeChunkPy Generated.pyMagic Generated.pyVersion (encodeChunk Generated.pyMagic Generated.pyVersion es)
+      = .ok es ∧
+    ∃ hist, decodeChunkKernel Generated.kernelMagic Generated.kernelVersion
+      (encodeChunk Generated.pyMagic Generated.pyVersion es) = .ok (es, hist) := by
+  refine ⟨decode_encode es hn h, ?_⟩
+  rw [← magic_agree, ← version_agree]
+  exact decodeChunkKernel_of_py_ok _ _ _ es (decode_encode es hn h)
+
+/-- (restates the definition of the buffer growth: `cap' = max cap n`) the kernel
+    reader never reads a block longer than the buffer it has (re)allocated -/
 theorem kernel_buffer_never_overrun (n capC capO : Nat) (bs : Bytes) (es : List (Event Nat Nat))
     (hist : List (Nat × Nat)) (h : decodeEventsKernel n capC capO bs = some (es, hist)) :
     ∀ p ∈ hist, p.1 ≤ p.2 :=
   decodeEventsKernel_cap n capC capO bs es hist h
+
+/-- **start/stop windows**: `write_events(events, file, start, stop, remove_duplicates)`
+    with `start ≤ stop`, `stop - start < 2³²` and 32-bit events: if a file is
+    left on disk (`some bytes`), it holds exactly the policy-processed events
+    `[start, stop)` of the stream (`win`; fewer than `stop - start` when the
+    stream ends early — then the header count was rewritten and the result is
+    `StopIteration`), it is the encoding of that window, and the Python reader
+    returns the window. -/
+theorem write_read_window (p : DupPolicy) (es : List (Event Nat Nat)) (start stop : Nat)
+    (hle : start ≤ stop) (hfit : stop - start < 4294967296) (hwf : Wf32 es) (bytes : Bytes) (r : WriteResult)
+    (h : writeEvents Generated.pyMagic Generated.pyVersion p es start stop = (some bytes, r)) :
+    ∃ win, windowEvents p es start stop = .ok win ∧
+      applyPolicyAll p ((es.drop start).take (stop - start)) = some win ∧ win ≠ [] ∧
+      bytes = encodeChunk Generated.pyMagic Generated.pyVersion win ∧
+      decodeChunkPy Generated.pyMagic Generated.pyVersion bytes = .ok win ∧
+      (r = .ok win.length ∨ r = .stopped win.length) :=
+  writeEvents_window_general _ _ header_fits.1 header_fits.2 p es start stop hle hfit hwf bytes r h
+
+/-- … and outside these windows (`stop < start`: negative estimate; `stop - start
+    ≥ 2³²`) `write_events` raises `OverflowError` before it looks at any event -/
+theorem write_window_overflow (p : DupPolicy) (es : List (Event Nat Nat)) (start stop : Nat)
+    (h : stop < start ∨ 4294967296 ≤ stop - start) :
+    writeEvents Generated.pyMagic Generated.pyVersion p es start stop = (none, .overflow) :=
+  writeEvents_overflow_of _ _ p es start stop h
 
 /-- size of a chunk file (used by C05/C17 for the storage budget sweep) -/
 theorem encoded_size (magic version : Nat) (es : List (Event Nat Nat)) :
@@ -90,8 +157,22 @@ theorem bad_header_rejected_py (m' v' : Nat) (hm' : m' < 4294967296) (hv' : v' <
     ∃ e, decodeChunkPy Generated.pyMagic Generated.pyVersion (u32le m' ++ (u32le v' ++ rest)) = .error e :=
   bad_header_is_error_py _ _ m' v' hm' hv' hne rest
 
-/-- and a list of good chunks is consumed completely, without error -/
-theorem good_chunks_consumed {σ : Type} (learnFile : σ → List (Event Nat Nat) → σ)
+/-- the same for the two binary-to-binary entry points as CALLED -/
+theorem bad_header_rejected_b2b {σ : Type} (learnFile : σ → List (Event Nat Nat) → σ)
+    (pre : List Bytes) (preEs : List (List (Event Nat Nat)))
+    (hpre : List.Forall₂ (fun f es => ∃ h, decodeChunkKernel Generated.kernelMagic
+      Generated.kernelVersion f = .ok (es, h)) pre preEs)
+    (m' v' : Nat) (hm' : m' < 4294967296) (hv' : v' < 4294967296)
+    (hne : m' ≠ Generated.kernelMagic ∨ v' ≠ Generated.kernelVersion) (rest : Bytes)
+    (post : List Bytes) (w : σ) :
+    ∃ e, learnChunksB2B Generated.kernelMagic Generated.kernelVersion learnFile
+      (pre ++ (u32le m' ++ (u32le v' ++ rest)) :: post) w = (preEs.foldl learnFile w, some e) := by
+  rw [learnChunksB2B_of_ne_nil _ _ _ _ (by simp)]
+  exact bad_header_rejected learnFile pre preEs hpre m' v' hm' hv' hne rest post w
+
+/-- the loop over a list of good chunks consumes all of them, without error
+    (the three Widrow-Hoff entry points: also for the empty list) -/
+theorem good_chunks_consumed_loop {σ : Type} (learnFile : σ → List (Event Nat Nat) → σ)
     (ess : List (List (Event Nat Nat))) (hn : ∀ es ∈ ess, es.length < 4294967296 ∧ Wf32 es) (w : σ) :
     learnChunks Generated.kernelMagic Generated.kernelVersion learnFile
       (ess.map (encodeChunk Generated.pyMagic Generated.pyVersion)) w = (ess.foldl learnFile w, none) := by
@@ -109,6 +190,25 @@ theorem good_chunks_consumed {σ : Type} (learnFile : σ → List (Event Nat Nat
       simp only [Except.map, Except.ok.injEq] at h
       exact ⟨r.2, by rw [← h]⟩
 
+/-- **a NON-EMPTY list of good chunks is consumed completely, without error, by
+    the binary-to-binary entry points** (`ess ≠ []`: the property quantifies over
+    1..4 chunks; without it the statement is FALSE for the real code, next theorem) -/
+theorem good_chunks_consumed {σ : Type} (learnFile : σ → List (Event Nat Nat) → σ)
+    (ess : List (List (Event Nat Nat))) (hne : ess ≠ [])
+    (hn : ∀ es ∈ ess, es.length < 4294967296 ∧ Wf32 es) (w : σ) :
+    learnChunksB2B Generated.kernelMagic Generated.kernelVersion learnFile
+      (ess.map (encodeChunk Generated.pyMagic Generated.pyVersion)) w = (ess.foldl learnFile w, none) := by
+  rw [learnChunksB2B_of_ne_nil _ _ _ _ (by simpa using hne)]
+  exact good_chunks_consumed_loop learnFile ess hn w
+
+/-- **an EMPTY file list makes the binary-to-binary entry points raise `IOError`**
+    (error code 3: `INITIAL_ERROR_CODE` is never overwritten), weights
+    untouched — this is why `ndl.ndl` raises on an event file with zero events
+    (`ndlCall`, C01 `ndl_call_empty_openmp`) -/
+theorem empty_file_list_raises {σ : Type} (learnFile : σ → List (Event Nat Nat) → σ) (w : σ) :
+    learnChunksB2B Generated.kernelMagic Generated.kernelVersion learnFile [] w = (w, some .noFile) :=
+  learnChunksB2B_nil _ _ learnFile w
+
 /-! non-vacuity: an event with 3000 cues and one without outcomes satisfy `Wf32`,
 and a concrete chunk round-trips byte for byte. -/
 example : Wf32 [⟨List.range 3000, [5]⟩, ⟨[7, 7], []⟩] := by
@@ -120,5 +220,36 @@ example : Wf32 [⟨List.range 3000, [5]⟩, ⟨[7, 7], []⟩] := by
 
 example : decodeChunkPy 14159265 2263 (encodeChunk 14159265 2263 [⟨[1, 2], [3]⟩, ⟨[70000], []⟩])
     = .ok [⟨[1, 2], [3]⟩, ⟨[70000], []⟩] := by decide +kernel
+
+
+/-- non-vacuity of `write_read_window`: the window `[1, 3)` of three events under
+    `remove_duplicates=True` (the theorem applied: what is on disk decodes to the
+    de-duplicated events 1 and 2) … -/
+example :
+    ∃ bytes, (writeEvents Generated.pyMagic Generated.pyVersion .dedup
+        [⟨[1, 2], [3]⟩, ⟨[4, 4], [5]⟩, ⟨[6], []⟩] 1 3).1 = some bytes ∧
+      decodeChunkPy Generated.pyMagic Generated.pyVersion bytes = .ok [⟨[4], [5]⟩, ⟨[6], []⟩] := by
+  have hwf : Wf32 [⟨[1, 2], [3]⟩, ⟨[4, 4], [5]⟩, ⟨[6], []⟩] := by
+    intro e he
+    simp only [List.mem_cons, List.not_mem_nil, or_false] at he
+    rcases he with rfl | rfl | rfl <;>
+      exact ⟨fun i hi => by simp at hi; omega, fun i hi => by simp at hi <;> omega, by simp, by simp⟩
+  obtain ⟨win, hwin, _, _, hb, hdec, _⟩ := write_read_window .dedup [⟨[1, 2], [3]⟩, ⟨[4, 4], [5]⟩, ⟨[6], []⟩] 1 3
+    (by decide) (by decide) hwf _ _ rfl
+  have : win = [⟨[4], [5]⟩, ⟨[6], []⟩] := by
+    have h2 : windowEvents .dedup [⟨[1, 2], [3]⟩, ⟨[4, 4], [5]⟩, ⟨[6], []⟩] 1 3
+        = .ok [⟨[4], [5]⟩, ⟨[6], []⟩] := by decide +kernel
+    rw [h2] at hwin; cases hwin; rfl
+  subst this
+  exact ⟨_, rfl, hdec⟩
+
+/-- … a window that reaches behind the end of the stream (`StopIteration`, header
+    count rewritten), and the two kinds of windows that raise `OverflowError` -/
+example :
+    (writeEvents 14159265 2263 .dedup [⟨[1, 2], [3]⟩, ⟨[4, 4], [5]⟩, ⟨[6], []⟩] 1 3).2 = .ok 2 ∧
+    (writeEvents 14159265 2263 .dedup [⟨[1, 2], [3]⟩, ⟨[4, 4], [5]⟩, ⟨[6], []⟩] 1 9).2 = .stopped 2 ∧
+    (writeEvents 14159265 2263 .dedup [⟨[1, 2], [3]⟩, ⟨[4, 4], [5]⟩, ⟨[6], []⟩] 3 1).2 = .overflow ∧
+    (writeEvents 14159265 2263 .dedup [⟨[1, 2], [3]⟩, ⟨[4, 4], [5]⟩, ⟨[6], []⟩] 0 4294967296).2 = .overflow := by
+  decide +kernel
 
 end Pyndl.C06
